@@ -127,19 +127,35 @@ class LinesearchSolver(NonlinearSolver):
                 if not np.isscalar(ref):
                     ref = ref.ravel()
 
+                scale = ref - ref0
+
+                if var_lower is not None:
+                    if not np.isscalar(var_lower):
+                        var_lower = var_lower.ravel()
+                    var_lower = (var_lower - ref0) / scale
+
+                if var_upper is not None:
+                    if not np.isscalar(var_upper):
+                        var_upper = var_upper.ravel()
+                    var_upper = (var_upper - ref0) / scale
+
+                if np.any(scale < 0):
+                    # a negative scale (ref < ref0) reverses the ordering: the scaled image of the
+                    # lower bound limits the scaled value from above, and vice versa.
+                    image_lower = -np.inf / scale if var_lower is None else var_lower
+                    image_upper = np.inf / scale if var_upper is None else var_upper
+                    var_lower = np.where(scale < 0, image_upper, image_lower)
+                    var_upper = np.where(scale < 0, image_lower, image_upper)
+
                 if var_lower is not None:
                     if self._lower_bounds is None:
                         self._lower_bounds = np.full(len(system._outputs), -np.inf)
-                    if not np.isscalar(var_lower):
-                        var_lower = var_lower.ravel()
-                    self._lower_bounds[start:end] = (var_lower - ref0) / (ref - ref0)
+                    self._lower_bounds[start:end] = var_lower
 
                 if var_upper is not None:
                     if self._upper_bounds is None:
                         self._upper_bounds = np.full(len(system._outputs), np.inf)
-                    if not np.isscalar(var_upper):
-                        var_upper = var_upper.ravel()
-                    self._upper_bounds[start:end] = (var_upper - ref0) / (ref - ref0)
+                    self._upper_bounds[start:end] = var_upper
 
                 start = end
         else:
